@@ -166,3 +166,35 @@ Definition validate_spec (sg : signature) (args : list value) (off : Z) : res un
        | Some (k, t, v) => Err (ERuntime (KInvalidType (argtype_name t) (type_name (get_type v)) (Z.of_nat k)) off)
        | None => Ok tt
        end.
+
+(** The specification's own verdict on a call, read from [spec_table] alone
+    (oracle of the violation search; no reference to the code's registry). *)
+Inductive sverdict := SVUnknown | SVNotEnough (e a : Z) | SVTooMany (e a : Z) | SVBadType (k : Z) | SVAccept.
+
+Fixpoint sfirst_bad (ps : list stype) (var : option stype) (args : list value) (k : Z) : option Z :=
+  match args with
+  | [] => None
+  | v :: r =>
+      match ps with
+      | t :: ps' => if has_stype t v then sfirst_bad ps' var r (k + 1) else Some k
+      | [] =>
+          match var with
+          | Some t => if has_stype t v then sfirst_bad [] var r (k + 1) else Some k
+          | None => None
+          end
+      end
+  end.
+
+Definition spec_verdict (name : str) (args : list value) : sverdict :=
+  match obj_get spec_table name with
+  | None => SVUnknown
+  | Some ss =>
+      let e := zlen (s_params ss) in
+      let a := zlen args in
+      if a <? e then SVNotEnough e a
+      else if match s_variadic ss with None => e <? a | Some _ => false end then SVTooMany e a
+      else match sfirst_bad (s_params ss) (s_variadic ss) args 0 with
+           | Some k => SVBadType k
+           | None => SVAccept
+           end
+  end.
